@@ -357,6 +357,12 @@ def run(prog, chk):
     if validator_domain(prog, r6) < 8:
         raise Broken("fewer than 8 direct normaliser calls found")
 
+    r10 = chk.rule("R10-names-exclude-controls-and-blanks", "for every code unit U+0001..U+0020 and U+007F one of the character predicates "
+                   "of cif_is_valid_name answers yes (evaluated over their CFGs): no code or name containing a blank, tab, line "
+                   "terminator or other control character is accepted", primary=False, floor=33)
+    if name_controls_rule(prog, r10) < 33:
+        raise Broken("fewer than 33 code units evaluated")
+
     r9 = chk.rule("R9-string-field-order", "serialiser and deserialiser of a table entry agree on which string is the normalised key "
                   "and which the original spelling (shared with C07 R9)", primary=False, floor=3)
     from . import c07
@@ -487,3 +493,37 @@ def name_length_limit(prog, rule):
                     rule.ok(key, "at most %d characters, counted in code points" % want)
     return n
 
+
+
+def name_controls_rule(prog, rule):
+    """R10: no code, name or key that passes cif_is_valid_name contains a control character or blank: for every code unit in
+    U+0001..U+0020 and U+007F at least one of the two predicates cif_is_valid_name combines - cif_has_whitespace,
+    cif_has_disallowed_chars - answers yes while its scan stands on that code unit (each is evaluated over its CFG with
+    `*c` bound to the code unit).  The disallowed-character predicate exempts tab, LF and CR on purpose (they are allowed in
+    CIF text), so those hang on the whitespace predicate alone."""
+    from ..chareval import predicate_outcomes
+    vn = prog.fn("cif_is_valid_name")
+    preds = [c.get("callee") for (b, i, r, c) in vn.calls() if (c.get("callee") or "").startswith("cif_has_")]
+    if len(preds) < 2:
+        raise Broken("cif_is_valid_name: the character predicates were not found")
+    n = 0
+    for ch in list(range(1, 0x21)) + [0x7f]:
+        n += 1
+        refused_by = []
+        unknown = False
+        for p in preds:
+            outs = predicate_outcomes(prog.fn(p), ch)
+            if outs == {1} or (1 in outs and "next" not in outs and "?" not in outs):
+                refused_by.append(p)
+            elif "?" in outs or (1 in outs and "next" in outs):
+                unknown = True
+        key = "U+%04X" % ch
+        if refused_by:
+            rule.ok(key, "refused by %s" % ", ".join(refused_by))
+        elif unknown:
+            rule.unproved(key, "a predicate could not be evaluated for this code unit")
+        else:
+            rule.violation(vn.file, vn.name, vn.line, "control-character-accepted:U+%04X" % ch,
+                           "neither %s answers yes for U+%04X: a block code, frame code or data name containing it passes "
+                           "cif_is_valid_name" % (" nor ".join(preds), ch))
+    return n
